@@ -133,6 +133,73 @@ Proof.
         -- split; auto.
 Qed.
 
+(* ---- WriteMsg(m): PackBuffer into the TX buffer (or an array of the library's) + Write(out) *)
+Lemma handler_write_msg_inv c s own sid ulen bs :
+  inv c s own ->
+  match handler_write c s sid (fun j => job_write_msg j ulen bs) with
+  | Ok s' => inv c s' own /\ u_burst s' = u_burst s /\ u_wdef s' = u_wdef s
+  | Disabled => True
+  | Panic => False
+  end.
+Proof.
+  intros Hinv. destruct (pack_in_place ulen) eqn:Epl.
+  2:{ apply handler_write_inv; auto. intros j. exists bs. unfold job_write_msg. rewrite Epl. reflexivity. }
+  unfold handler_write.
+  destruct (get_slab s sid) as [j|] eqn:Hj; auto.
+  destruct (serv_find sid (u_serv s)) as [who|] eqn:Hf; auto.
+  apply serv_find_In in Hf. apply (i_serv _ _ _ Hinv) in Hf.
+  pose proof (i_local _ _ _ Hinv sid _ j Hf Hj) as Hloc.
+  pose proof Hloc as [Hb (H1 & H2 & H3 & H4 & H5 & H6 & H7 & H8 & H9)].
+  (* the packed bytes are in tx whatever follows: the first max(txlen, leaselen) bytes stay tagged *)
+  assert (Hkeep : forall n, n <= Nat.max (s_txlen j) (s_leaselen j) ->
+            n <= length (copy_into (s_tx j) (tag (s_lease j) bs)) /\
+            Forall (fun tb : tbyte => snd tb = s_lease j) (firstn n (copy_into (s_tx j) (tag (s_lease j) bs)))).
+  { intros n Hn. split.
+    - rewrite copy_into_length. lia.
+    - eapply Forall_firstn_le; [|apply (copy_into_tags _ (s_tx j) (tag (s_lease j) bs) n); [|apply tag_tags]].
+      + lia.
+      + eapply Forall_firstn_le; [|exact H9]. lia. }
+  unfold job_write_msg. rewrite Epl.
+  destruct (N.ltb udp_buf_size (N.of_nat (length bs))) eqn:Ebig.
+  - (* refused by size (cannot arise for a real message): tx scribbled with own bytes, `written` *)
+    split; [|split; reflexivity].
+    apply (inv_serv_update c s own sid who _ [EWrite sid (s_lease j)]); auto.
+    + intros e [<-|[]]; auto.
+    + constructor; [apply (i_log _ _ _ Hinv) | exact I].
+    + apply (serv_local_keep c (u_log s) [EWrite sid (s_lease j)] sid who j); auto.
+      * intros e [<-|[]] _. cbn. auto.
+      * intros _. left. auto.
+      * unfold tags_ok. cbn. apply Hkeep. lia.
+  - destruct (s_burst j) as [b|] eqn:Eb.
+    + (* staged by length: the bytes were packed in place *)
+      split; [|split; reflexivity].
+      apply (inv_serv_update c s own sid who _ [EWrite sid (s_lease j)]); auto.
+      * intros e [<-|[]]; auto.
+      * constructor; [apply (i_log _ _ _ Hinv) | exact I].
+      * apply (serv_local_keep c (u_log s) [EWrite sid (s_lease j)] sid who j); auto.
+        -- intros e [<-|[]] _. cbn. auto.
+        -- intros ->. cbn in H2. congruence.
+        -- intros _. left. auto.
+        -- unfold tags_ok. cbn. split.
+           ++ rewrite copy_into_length, tag_length. lia.
+           ++ replace (length bs) with (length (tag (s_lease j) bs)) at 1 by apply tag_length.
+              apply copy_into_tags; [|apply tag_tags].
+              eapply Forall_firstn_le; [|exact H9]. lia.
+    + (* burst == nil: sent at once from the TX buffer *)
+      split; [|split; reflexivity].
+      apply (inv_serv_update c s own sid who _ [ESend sid (s_lease j) (s_raddr j) (tag (s_lease j) bs); EWrite sid (s_lease j)]); auto.
+      * intros e [<-|[<-|[]]]; auto.
+      * constructor; [constructor; [apply (i_log _ _ _ Hinv) | exact I]|].
+        cbn. split; [apply tag_tags|]. split; [|split].
+        -- destruct H6 as [H6 _]. eexists. right. eauto.
+        -- left. auto.
+        -- intros [E|Hin]; [discriminate|]. apply H5. auto.
+      * apply (serv_local_keep c (u_log s) _ sid who j); auto.
+        -- intros e [<-|[<-|[]]] _; cbn; auto.
+        -- intros _. right. left. auto.
+        -- unfold tags_ok. cbn. apply Hkeep. lia.
+Qed.
+
 (* ---- Write(lease): the in-place path *)
 Lemma handler_write_lease_inv c s own sid :
   inv c s own ->
